@@ -144,6 +144,7 @@ func (s *trSuite) run(label string, steps []tStep) {
 			}
 			if st.Kind == "gincomingblock" && known && len(o.Calls) == 1 && o.Calls[0].Unique != st.OnWire {
 				fail("C07", "received-unique-flag", "a received block's uniqueness is not 'was on the wire'")
+				fail("C16", "received-unique-flag", "a received block that was not on the wire (already in the local store) was accounted as received data")
 			}
 			if st.Kind == "gcompleted" && known {
 				switch st.Status {
